@@ -2,4 +2,5 @@ SPECIFICATION Spec
 INVARIANT RejectWritesNothing
 INVARIANT AcceptWritesExactly
 INVARIANT ErrIffIllFormed
+INVARIANT OwnChecksInForce
 PROPERTY OnlyAfterOk
